@@ -690,7 +690,7 @@ func C19() *check.Property {
 		Title:    "Prometheus instrumentation is transparent and its counters are exact",
 		Patterns: cat(CorePatterns, []string{PromPkg}),
 		Scope:    []string{PromPkg},
-		Rules:    []check.Rule{ruleForwarder(), ruleCountOnce(), ruleMetricsWired(), ruleLicenceArms(), rulePipeArms(), ruleRelease(), ruleNoDowngrade(), ruleStateLevel(), ruleCtxProvenance(), ruleSlotCtxArgument(), ruleCallbackCtxUsed(), ruleDeadContextStore(), ruleCtxValueAgreement(), ruleNoGlobalState()},
+		Rules:    []check.Rule{ruleForwarder(), ruleCountOnce(), ruleMetricsWired(), ruleLicenceArms(), rulePipeArms(), ruleRelease(), ruleNoDowngrade(), ruleStateLevel(), ruleCtxProvenance(), ruleSlotCtxArgument(), ruleCallbackCtxUsed(), ruleDeadContextStore(), ruleCtxValueAgreement(), ruleNoGlobalState(), ruleBracketPlacement()},
 		Explanation: "Static check on ee/plugins/prometheus (the OpenTelemetry plugin cannot be type-checked offline and is out of reach). FORWARDER proves each instrumentation operator is the identity on notifications and contexts (one upstream site with the subscriber context; " +
 			"each slot forwards exactly once, unconditionally, its own payload with a context derived from the one it received; or the destination itself is handed upstream); with C01-C03 for the core this is transparency. COUNT-ONCE proves each metric update sits in the slot " +
 			"its operator's name says and runs at most once per event, before forwarding for the stand-alone counters. LICENCE-BOTH-ARMS proves the licence is evaluated at subscription time and selects between compositions built from the same operators; " +
